@@ -469,6 +469,11 @@ impl<'a> QrPayload<'a, &'a [u8]> {
         // Padding bits (must be present but are ignored).
         let _ = reader.read(PADDING_FIELD_LENGTH_IN_BITS)?;
 
+        // The 27-bit field can hold values outside the passcode range 1..=99999998
+        if !is_passcode_in_range(passcode) {
+            return Err(ErrorCode::InvalidData.into());
+        }
+
         // The remaining whole bytes are the optional-TLV data.
         let optional_data = &decoded[TOTAL_PAYLOAD_DATA_SIZE_IN_BYTES..];
 
@@ -672,6 +677,9 @@ impl<'a> QrPayload<'a, ()> {
         }
 
         let passcode = (passcode_high << 14) | passcode_low;
+        if !is_passcode_in_range(passcode) {
+            return Err(ErrorCode::InvalidData.into());
+        }
 
         // The short discriminator is exactly the upper 4 bits (11..8) of the full
         // 12-bit discriminator.
@@ -783,6 +791,11 @@ impl<'a> QrPayload<'a, ()> {
             ..Default::default()
         }
     }
+}
+
+/// The passcode range of the Matter Core spec: `0x0000001..=0x5F5E0FE`.
+const fn is_passcode_in_range(passcode: u32) -> bool {
+    passcode >= 1 && passcode <= 99_999_998
 }
 
 impl CommFlowType {
